@@ -20,7 +20,8 @@ RULE = (
     "unchanged for mark/attr ops; inside the range every inline token whose parent allows the mark "
     "has exactly refAdd(mark, old marks) / no matching mark, everything else identical; node-level ops "
     "change exactly the addressed node; retyped blocks keep their children as the documented "
-    "filtering of the old ones. distinct = (schema, op, range shape, exclusion effect, outcome); "
+    "filtering of the old ones; a set_block_type that RAISES is a violation (block-type-refused) when the new "
+    "type accepts the children of every textblock in reach as they stand (nothing to drop, no filler). distinct = (schema, op, range shape, exclusion effect, outcome); "
     "trivial = empty range."
 )
 ASSUMPTIONS = [
@@ -276,6 +277,16 @@ def case(ctx, rnd, i):
             if isinstance(e, UnicodeError):
                 ctx.violation("raised-internal", "%s raised %s: %s" % (op, type(e).__name__, e), det, {**mech, "exc": type(e).__name__})
             ctx.count("op_rejected:" + op)
+            if op == "set_block_type":
+                # a refusal is legitimate only if some textblock in reach cannot simply be emptied of what the
+                # new type cannot hold (it would need filler content, whose search may fail); where every
+                # such block keeps a prefix-closed, complete child sequence the documented result exists
+                why = _retype_needs_nothing(sch, p, a, b, args["type"])
+                if why is True:
+                    ctx.violation("block-type-refused", "set_block_type(%d,%d,%s) raised %s: %s although the new type accepts the children of every "
+                                  "textblock in the range as they stand (only marks / newlines to clear)" % (a, b, args["type"], type(e).__name__, e), det, {**mech, "exc": type(e).__name__})
+                    continue
+                ctx.count("block_type_refusal_not_judged:" + why)
             ctx.cover([sid, op, "rejected", str(shape)])
             continue
         except BaseException as e:
@@ -347,6 +358,48 @@ def case(ctx, rnd, i):
             _judge_block_type(ctx, sch, d, p, tk, tr.doc, newp, a, b, args, det, mech, sid, shape)
         else:
             _judge_markup(ctx, sch, p, tk, newp, new, args, det, mech, sid, shape, bool(tr.steps))
+
+
+def _retype_needs_nothing(sch, p, a, b, tn):
+    """True if every textblock that set_block_type(a, b, tn) may touch holds a child sequence that tn accepts
+    as it stands (nothing to drop, no filler needed: only marks are stripped and newlines replaced);
+    otherwise a short reason."""
+    rs = sch.ref
+    T = rs.nodes[tn]
+    seen = [0]
+
+    def walk(o, pos):
+        if o[0] == "t":
+            return True
+        ot = rs.nodes[o[1]]
+        size = flat.node_size(o, sch.leaf)
+        if ot.inline_content and not ot.inline:
+            if not (pos <= b and pos + size >= a):
+                return True
+            seen[0] += 1
+            D = T.regex
+            for c in o[4]:
+                d2 = deriv(D, "text" if c[0] == "t" else c[1])
+                if d2 is EMPTY:
+                    # dropping a child goes through an intermediate document that must be valid for the OLD
+                    # type too (upstream applies the deletions before the retyping step): may legitimately fail
+                    return "drops_children"
+                D = d2
+            return True if nullable(D) else "needs_fill"
+        if ot.inline:
+            return "inline_container"
+        q = pos + 1
+        for x in o[4]:
+            r = walk(x, q)
+            if r is not True:
+                return r
+            q += flat.node_size(x, sch.leaf)
+        return True
+
+    r = walk(p, -1)
+    if r is True and not seen[0]:
+        return "no_textblock_in_reach"
+    return r
 
 
 def _judge_markup(ctx, sch, p, tk, newp, new, args, det, mech, sid, shape, stepped):
